@@ -16,6 +16,7 @@ TITLE: {p['title']}
 STATEMENT: {p['statement']}
 QUANTIFIED OVER: {p['quantifier']['text']}
 RELEVANT FILES: {', '.join(p['anchors']['files'])}
+MECHANISMS INVOLVED: {'; '.join(m['name'] + ' (' + m['where'] + ')' for m in p['anchors'].get('mechanism', []))}
 {('For this round, place your changes in (or around the code reached from) these of the relevant files: ' + focus) if focus else ''}
 
 Your task: produce {n} DIFFERENT realistic changes (bugs a maintainer could plausibly introduce during a refactor or optimisation) to the repository's source, each of which BREAKS this property while the workspace still compiles and the existing test suite still passes unedited. Prefer changes that need something specific to manifest — an unusual input, a particular multi-step sequence of operations, a particular combination of types/attributes/configuration, or two cooperating sites that each look fine alone — NOT changes that any ordinary use would expose at once. Each change should be small (a few lines), touch only non-test source files of the repository (Rust sources or templates under core/, macro/, runtime/, tool/), and be independent of the others (each is a separate patch against the unchanged tree).
